@@ -151,9 +151,18 @@ theorem need_readChunk (s : St) (hi : Inv s) (h : s.source ≠ [] ∨ s.buffered
     | some b => rw [readChunk_flush s b hsrc hb]; simp [need, hsrc, hb]
   | cons seg rest =>
     have hseg : seg ≠ [] := hi.src seg (by rw [hsrc]; exact List.mem_cons_self)
-    rw [readChunk_cons s seg rest hsrc hseg]
-    simp only [need, hsrc]
-    split <;> simp_all <;> omega
+    by_cases hon : s.buffered = none ∧ (loneCarry seg).isSome ∧ rest ≠ []
+    · obtain ⟨hbuf, hl, hr⟩ := hon
+      obtain ⟨c, hc⟩ := Option.isSome_iff_exists.mp hl
+      obtain ⟨hsegc, hcar⟩ := loneCarry_some seg c hc
+      obtain ⟨seg2, rest', e⟩ := List.exists_cons_of_ne_nil hr
+      subst hsegc e
+      rw [readChunk_on s c seg2 rest' hsrc hbuf hcar]
+      simp only [need, hsrc]
+      split <;> simp_all <;> omega
+    · rw [readChunk_cons s seg rest hsrc hseg hon]
+      simp only [need, hsrc]
+      split <;> simp_all <;> omega
 
 theorem takeWhile_self (p : Nat → Bool) (l : Str) (h : ∀ a ∈ l, p a = true) : l.takeWhile p = l := by
   simpa using List.takeWhile_append_of_pos (l₂ := []) h
